@@ -1,5 +1,6 @@
 import Lean.Data.Json
 import DigModel.Api
+import DigModel.Dot
 /-
   JSON decoding of programs and encoding of traces (PROTOCOL.md).
 -/
@@ -100,7 +101,7 @@ def decProgram (j : Json) : R Program := do
         | none => throw "bad script key"
     | _ => pure []
   let ops ← (← jarr j "ops").toList.mapM decOp
-  pure { cfg, types, fns, script, ops }
+  pure { cfg, types, fns, script, ops, sameIds := jstrD j "ids" "same" != "distinct" }
 
 /-! ### encoding -/
 
@@ -157,15 +158,39 @@ def encInfo (i : InfoOut) : Json :=
     ("in", Json.arr (i.ins.map fun (t, n, g, o) => Json.arr #[jn t, Json.str n, Json.str g, Json.bool o]).toArray),
     ("out", Json.arr (i.outs.map fun (t, n, g) => Json.arr #[jn t, Json.str n, Json.str g]).toArray)]
 
-def encOpRes (r : OpRes) : Json :=
+def encColor : ErrT → Json
+  | .none => Json.str ""
+  | .root => Json.str "red"
+  | .transitive => Json.str "orange"
+
+def encDRes (r : DResult) : Json := Json.arr #[jn r.ty, Json.str r.name, Json.str r.group, jn r.idx]
+
+def encDot (g : DGraph) : Json :=
+  Json.mkObj [("valid", true), ("labelsOk", true),
+    ("groups", Json.arr ((g.groups.filter (·.alive)).map fun x =>
+        Json.mkObj [("ty", jn x.ty), ("g", Json.str x.name), ("color", encColor x.err),
+                    ("members", Json.arr (x.results.map encDRes).toArray)]).toArray),
+    ("ctors", Json.arr ((g.ctors.filter (·.alive)).map fun c =>
+        Json.mkObj [("color", encColor c.err),
+          ("results", Json.arr (c.results.map encDRes).toArray),
+          ("params", Json.arr (c.params.map fun p => Json.arr #[jn p.ty, Json.str p.name, Json.bool p.optional]).toArray),
+          ("gparams", Json.arr (c.gparams.map fun gi =>
+              let grp := g.groups.getD gi default
+              Json.arr #[jn grp.ty, Json.str grp.name]).toArray)]).toArray),
+    ("transitive", Json.arr (g.transitive.map encDRes).toArray),
+    ("root", Json.arr (g.rootCauses.map encDRes).toArray)]
+
+def encOpRes (rd : OpRes × Option DGraph) : Json :=
+  let r := rd.1
   Json.mkObj [("v", encVerdict r.v), ("ev", Json.arr (r.ev.map encEvent).toArray),
-    ("info", match r.info with | some i => encInfo i | none => Json.null), ("dot", Json.null)]
+    ("info", match r.info with | some i => encInfo i | none => Json.null),
+    ("dot", match rd.2 with | some g => encDot g | none => Json.null)]
 
 def isFuel : Verdict → Bool | .fuel => true | _ => false
 
-def encTrace (rs : List OpRes) : Json :=
+def encTrace (rs : List (OpRes × Option DGraph)) : Json :=
   Json.mkObj [("ops", Json.arr (rs.map encOpRes).toArray),
-    ("fatal", if rs.any (fun r => isFuel r.v) then Json.str "fuel" else Json.null)]
+    ("fatal", if rs.any (fun r => isFuel r.1.v) then Json.str "fuel" else Json.null)]
 
 /-- K-graph request -/
 def runGraph (j : Json) : R Json := do
@@ -186,6 +211,6 @@ def handleLine (line : String) : String :=
     | _ =>
       match decProgram j with
       | .error e => (Json.mkObj [("error", Json.str e)]).compress
-      | .ok p => (encTrace (runProgram p).2).compress
+      | .ok p => (encTrace (runProgramV p).2).compress
 
 end Dig
